@@ -221,4 +221,72 @@ theorem readXrff_faithful (cfg : Cfg) (o : NumOracle F) (filter : List Str → B
   simp only [hfold, bind, Except.bind, hval, Bool.not_true, Bool.and_false, Bool.false_eq_true, if_false,
     if_true, pure, Except.pure, hlen, List.length_map]
 
+/-! ### the hook of `read_xrff` -/
+
+theorem xInstStepH_ofPred (cfg : Cfg) (o : NumOracle F) (f : List Str → Bool) (k : Nat) (df : DF F) (r : List Str) :
+    xInstStepH cfg o (Hook.ofPred f) k df r = xInstStep cfg o f k df r := by
+  unfold xInstStepH xInstStep Hook.ofPred
+  cases f r <;> simp
+
+theorem foldlM_congr {α β ε : Type} (f g : β → α → Except ε β) (h : ∀ b a, f b a = g b a) :
+    ∀ (l : List α) (b : β), l.foldlM f b = l.foldlM g b := by
+  intro l
+  induction l with
+  | nil => intro b; rfl
+  | cons a l ih =>
+    intro b
+    simp only [List.foldlM, h b a]
+    cases g b a with
+    | error e => rfl
+    | ok b' => exact ih b'
+
+/-- the model with a filter predicate is the model with the hook that only filters -/
+theorem readXrff_eq_H (cfg : Cfg) (o : NumOracle F) (f : List Str → Bool) (doc : XDoc) :
+    readXrff cfg o f doc = readXrffH cfg o (Hook.ofPred f) doc := by
+  cases doc with
+  | parseError => rfl
+  | noAttributes => rfl
+  | doc attrs instances =>
+    cases instances with
+    | none => rfl
+    | some insts =>
+      simp only [readXrff, readXrffH]
+      congr 1
+      funext st
+      split
+      · rfl
+      · simp only [foldlM_congr _ _ (fun b a => (xInstStepH_ofPred cfg o f _ b a).symm) insts]
+
+theorem ofPred_true : Hook.ofPred (fun _ => true) = (some : Hook) := by
+  funext r; simp [Hook.ofPred]
+
+/-- the instance loop with a hook is the loop without a hook over the records the hook returns -/
+theorem foldl_xInstStepH (cfg : Cfg) (o : NumOracle F) (hook : Hook) (k : Nat) : ∀ (insts : List (List Str)) (df : DF F),
+    insts.foldlM (xInstStepH cfg o hook k) df = (insts.filterMap hook).foldlM (xInstStepH cfg o some k) df := by
+  intro insts
+  induction insts with
+  | nil => intro df; rfl
+  | cons r insts ih =>
+    intro df
+    cases hr : hook r with
+    | none =>
+      have : xInstStepH cfg o hook k df r = .ok df := by simp [xInstStepH, hr, pure, Except.pure]
+      simp only [List.foldlM, this, bind, Except.bind, List.filterMap_cons, hr]
+      exact ih df
+    | some r' =>
+      have : xInstStepH cfg o hook k df r = xInstStepH cfg o some k df r' := by simp [xInstStepH, hr]
+      simp only [List.foldlM, this, List.filterMap_cons, hr]
+      cases xInstStepH cfg o some k df r' with
+      | error e => rfl
+      | ok df' => exact ih df'
+
+theorem readXrffH_filterMap (cfg : Cfg) (o : NumOracle F) (hook : Hook) (attrs : List XAttr) (insts : List (List Str)) :
+    readXrffH cfg o hook (.doc attrs (some insts)) = readXrffH cfg o some (.doc attrs (some (insts.filterMap hook))) := by
+  simp only [readXrffH]
+  congr 1
+  funext st
+  split
+  · rfl
+  · simp only [foldl_xInstStepH cfg o hook _ insts]
+
 end Vita.C09
